@@ -123,6 +123,9 @@ pub fn run_worker(
     let scm_worker = h.scm_worker.take().unwrap();
     let scm_main_fd = h.scm_main.raw_fd();
     let scm_worker_fd = scm_worker.raw_fd();
+    if let Ok(level) = std::env::var("SIMK_SOZU_LOG") {
+        let _ = sozu_command_lib::logging::setup_default_logging(false, &level, "SIM");
+    }
     let r = catch_unwind(AssertUnwindSafe(|| {
         match Server::try_new_from_config(channel, scm_worker, server_config, initial_state, false) {
             Ok(mut server) => {
